@@ -1091,7 +1091,37 @@ class VM:
 
     max_depth = 60
 
+    def local_names(self, node):
+        """Names that are local to a function body (bound somewhere in it): reading one before it is bound is an
+        UnboundLocalError, not a lookup in the enclosing scopes."""
+        cached = getattr(node, '_local_names', None)
+        if cached is not None:
+            return cached
+        bound, declared = set(), set()
+        stack = list(node.body) if isinstance(node.body, list) else []
+        while stack:
+            n = stack.pop()
+            if isinstance(n, (ast.FunctionDef, ast.AsyncFunctionDef, ast.ClassDef)):
+                bound.add(n.name)
+                continue
+            if isinstance(n, (ast.Lambda, ast.ListComp, ast.SetComp, ast.DictComp, ast.GeneratorExp)):
+                continue
+            if isinstance(n, ast.Name) and isinstance(n.ctx, (ast.Store, ast.Del)):
+                bound.add(n.id)
+            elif isinstance(n, (ast.Global, ast.Nonlocal)):
+                declared.update(n.names)
+            elif isinstance(n, ast.ExceptHandler) and n.name:
+                bound.add(n.name)
+            elif isinstance(n, (ast.Import, ast.ImportFrom)):
+                for al in n.names:
+                    bound.add((al.asname or al.name).split('.')[0])
+            stack.extend(ast.iter_child_nodes(n))
+        node._local_names = frozenset(bound - declared)
+        return node._local_names
+
     def _call_interp(self, node, f, env, args, realfn):
+        if not isinstance(node, ast.Lambda):
+            env['$locals'] = self.local_names(node)
         if realfn is not None and '.' in realfn.__qualname__ and args:
             cls = defining_class(realfn)
             if cls is not None:
@@ -1515,6 +1545,8 @@ class VM:
             if name in fr.env:
                 v = fr.env[name]
                 return v.cell.cell_contents if isinstance(v, Cell) else v
+            if fr is f and name in fr.env.get('$locals', ()):
+                raise UnboundLocalError(f"cannot access local variable '{name}' where it is not associated with a value")
             fr = fr.parent
         g = f.glob
         if name in g:
